@@ -270,18 +270,43 @@ func c12SiteKeys(f *kit.Func, role string, sites []*kit.LenSite) map[*kit.LenSit
 	sort.Slice(sorted, func(i, j int) bool { return sorted[i].Expr.Pos() < sorted[j].Expr.Pos() })
 	for _, st := range sorted {
 		var k string
+		// symbolic bounds (L = length) are independent of local variable names
+		los, his := map[string]bool{}, map[string]bool{}
+		for _, b := range st.Bounds {
+			los[b.Lo], his[b.Hi] = true, true
+		}
+		join := func(m map[string]bool) string {
+			var v []string
+			for x := range m {
+				v = append(v, x)
+			}
+			sort.Strings(v)
+			if len(v) == 1 {
+				return v[0]
+			}
+			return "{" + strings.Join(v, ",") + "}"
+		}
+		sym := len(st.Bounds) > 0 && !los["?"] && !his["?"]
 		switch x := st.Expr.(type) {
 		case *ast.IndexExpr:
-			k = fmt.Sprintf("%s [%s]", role, f.Str(x.Index))
+			if sym {
+				k = fmt.Sprintf("%s [%s]", role, join(los))
+			} else {
+				k = fmt.Sprintf("%s [%s]", role, f.Str(x.Index))
+			}
 		case *ast.SliceExpr:
-			lo, hi := "", ""
-			if x.Low != nil {
-				lo = f.Str(x.Low)
+			if sym {
+				k = fmt.Sprintf("%s [%s:%s]", role, join(los), join(his))
+			} else {
+				lo, hi := "", ""
+				if x.Low != nil {
+					lo = f.Str(x.Low)
+				}
+				if x.High != nil {
+					hi = f.Str(x.High)
+				}
+				k = fmt.Sprintf("%s [%s:%s]", role, lo, hi)
 			}
-			if x.High != nil {
-				hi = f.Str(x.High)
-			}
-			k = fmt.Sprintf("%s [%s:%s]", role, lo, hi)
 		}
 		seen[k]++
 		if n := seen[k]; n > 1 {
